@@ -167,6 +167,7 @@ impl World {
                 Via::ToLeanStr => text.as_str().to_lean_string(),
                 Via::ToLeanCow => Cow::Borrowed(text.as_str()).to_lean_string(),
                 Via::ToLeanBox => text.clone().into_boxed_str().to_lean_string(),
+                Via::TryToLeanString => tls_outcome(text.try_to_lean_string())?,
             },
             Op::FromChar { ch, via, .. } => match via {
                 CharVia::From => LeanString::from(*ch),
@@ -196,6 +197,14 @@ impl World {
             }
             Op::FromUtf8Lossy { hex, .. } => LeanString::from_utf8_lossy(&hex_decode(hex)),
             Op::FromUtf16 { units, lossy, .. } => {
+                // every other input at an address that is 2-aligned only (a sub-slice of a Vec), as callers may pass
+                let shifted: Vec<u16>;
+                let units: &[u16] = if units.len() % 2 == 1 {
+                    shifted = std::iter::once(0x2au16).chain(units.iter().copied()).collect();
+                    &shifted[1..]
+                } else {
+                    units
+                };
                 if *lossy {
                     LeanString::from_utf16_lossy(units)
                 } else {
@@ -272,7 +281,20 @@ impl World {
         // the crate's doing (a temporary String per item, say)
         let items = if matches!(it.kind, IterKind::Lean | IterKind::LeanSlots) { self.lean_items(it) } else { vec![] };
         let chars: Vec<char> = if matches!(it.kind, IterKind::Char | IterKind::RefChar) { flat_chars(&it.items) } else { vec![] };
-        let strings: Vec<String> = if matches!(it.kind, IterKind::String) { it.items.clone() } else { vec![] };
+        // owned items whose own capacity exceeds their text (every other one)
+        let strings: Vec<String> = if matches!(it.kind, IterKind::String) {
+            it.items
+                .iter()
+                .enumerate()
+                .map(|(i, t)| {
+                    let mut s = String::with_capacity(t.len() + (i % 2) * 57);
+                    s.push_str(t);
+                    s
+                })
+                .collect()
+        } else {
+            vec![]
+        };
         let boxes: Vec<Box<str>> = if matches!(it.kind, IterKind::BoxStr) { it.items.iter().map(|s| s.clone().into_boxed_str()).collect() } else { vec![] };
         let cows: Vec<Cow<'_, str>> = if matches!(it.kind, IterKind::CowO) { it.items.iter().map(|s| Cow::<str>::Owned(s.clone())).collect() } else { vec![] };
         shadow::with(|hp| hp.events.clear());
